@@ -44,7 +44,7 @@ The two changes should break the property through DIFFERENT mechanisms/locations
 
 Deliver, for k = {a}, {b}, a directory /tmp/mut/out/{pid}_k/ (i.e. {pid}_{a} and {pid}_{b}) containing: `patch.diff` (output of `git diff` in your worktree for that change alone, applicable with `git apply` on /repo's HEAD), `demo.py`, and `meta.json` with keys: property ("{pid}"), commit_message, summary (what the change does), needs (what specific circumstance is required for the violation to manifest), ran (the commands you ran and their observed results: test-suite tail with and without the change, demo exit codes with and without the change). Reset your worktree between the two changes with `git checkout -- .` (never use `git stash`: the stash is shared between all worktrees of /repo and other people are working in parallel). When finished remove your worktree: `git -C /repo worktree remove --force {wt}`. Final answer: a short summary of the two changes and where the files are.
 
-This is a {ORD.get(rnd, rnd + 'th')} round. Aim for REALISTIC regressions of the kind that really happen in maintenance (a refactoring that loses one case, an optimisation wrong in a corner, a bug fix for one path that breaks a neighbouring path, an API extension whose default changes old behaviour in one configuration, a wrong boundary, swapped similar names, an error path that forgets to undo something, a 'cleanup' that merges two almost-identical code paths, a cache with an incomplete key or missing invalidation, a resource/size assumption that breaks for large or degenerate inputs). Each must be plausible as a single pull request with a sensible-looking commit message. Look for code in the property's files that earlier rounds did NOT touch: read the files end to end first and list the functions involved in the property, including helpers in OTHER modules that the anchored code calls; then pick locations and mechanisms not mentioned below. Earlier rounds (all detected by the project's checks by now):
+This is a {ORD.get(rnd, rnd + 'th')} round. Aim for REALISTIC regressions of the kind that really happen in maintenance (a refactoring that loses one case, an optimisation wrong in a corner, a bug fix for one path that breaks a neighbouring path, an API extension whose default changes old behaviour in one configuration, a wrong boundary, swapped similar names, an error path that forgets to undo something, a 'cleanup' that merges two almost-identical code paths, a cache with an incomplete key or missing invalidation, a resource/size assumption that breaks for large or degenerate inputs, behaviour that now depends on a process-wide setting / environment variable / feature flag, a new optional parameter whose default is wrong for one caller, an isinstance test broadened or narrowed, an error path that swallows an exception and carries on, a decorator or logging fast path that skips a step, a deprecation shim that forwards to the wrong function). Each must be plausible as a single pull request with a sensible-looking commit message. Look for code in the property's files that earlier rounds did NOT touch: read the files end to end first and list the functions involved in the property, including helpers in OTHER modules that the anchored code calls; then pick locations and mechanisms not mentioned below. Earlier rounds (all detected by the project's checks by now):
 """ + "\n".join("  - " + s for s in priors)
     if openf:
         txt += "\n\nKnown, still-open defects of the unchanged tree for this property (do NOT re-use them; your demo must exit 0 on the unchanged tree):\n" + \
